@@ -18,7 +18,7 @@ def run(rep, tier, seed, replay):
     pr = vlib.prove(rep, PROP)
     vlib.prepare_runners()
     rc = [json.load(open(replay))["case"]["line"]] if replay else None
-    res = differential(rep, PROP, "c07", seed, 150 if tier == "quick" else 5000, tier, replay_cases=rc)
+    res = differential(rep, PROP, "c07", seed, 150 if tier == "quick" else 2500, tier, replay_cases=rc)
     cases, impl, model = res["cases"], res["impl"], res["models"]["c07"]
     mm = vlib.diff_lines(impl, model)
     add_corr(rep, "Fault histories: per request served/error, reply, executing node, same/new connection, redirected vs the model", res, mm,
